@@ -328,6 +328,12 @@ def canonicalise(raw, fname):
                 top = scored[0]
                 unique_sig = len(cands) == 1 and not others_missing
                 clear = len(scored) == 1 or top[0] - scored[1][0] >= 0.15
+                # a free / inherent function reappearing as an item of a trait impl is a bigger step than a rename or a
+                # move: it needs more than half of the callees in common (an impl item that merely forwards to one of
+                # the two things the old function did is a different function)
+                crossing = top[2].startswith("<") and not m.startswith("<")
+                if crossing and top[1] <= 0.5:
+                    continue
                 if (top[1] >= 0.5 and clear) or (unique_sig and (top[1] >= 0.2 or not ref[m]["callees"])) or (top[0] >= 0.55 and clear):
                     alias[top[2]] = m
                     changed = True
